@@ -264,7 +264,7 @@ impl Prop for C19 {
     fn runs(&self, t: Tier) -> u64 {
         match t {
             Tier::Quick => 6_000,
-            Tier::Thorough => 300_000,
+            Tier::Thorough => 2_000_000,
         }
     }
     fn nontrivial_rule(&self) -> &'static str {
